@@ -59,6 +59,10 @@ def run(ctx):
         subsets = [s for n in range(1, len(chains)) for s in itertools.combinations(chains, n)]
         if not ctx.thorough() and len(subsets) > 3:
             subsets = subsets[:2] + subsets[-1:]
+        # a selection of several chains is also given in the reverse of the file order
+        subsets = subsets + [tuple(reversed(s_)) for s_ in subsets if len(s_) >= 2][: (None if ctx.thorough() else 2)]
+        if len(chains) >= 2:
+            subsets.append(tuple(reversed(chains)))      # every chain, named back to front
         for sub in subsets:
             opts = [x for ch in sub for x in ("-c", ch)]
             ra = runner.run(chain_filter(text, set(sub)), ["-q"])
